@@ -314,27 +314,36 @@ Definition ltok_ok (t : tok) (next : N) : bool :=
   | _ => false
   end.
 
-Fixpoint ltoks_ok (ts : list tok) : bool :=
+(* [rest] = the text that follows the run (its first byte is what the last token is checked against) *)
+Fixpoint ltoks_ok_in (ts : list tok) (rest : string) : bool :=
   match ts with
   | [] => true
-  | t :: r => ltok_ok t (first_b (toks_text r)) && ltoks_ok r
+  | t :: r => ltok_ok t (first_b (toks_text r ++ rest)) && ltoks_ok_in r rest
   end.
+Definition ltoks_ok (ts : list tok) : bool := ltoks_ok_in ts "".
 
 Lemma lex_repeat_no_digit s : is_dig (first_b s) = false -> lex_repeat s = None.
 Proof.
   intros H. unfold lex_repeat. destruct s as [|a r]; [reflexivity|]. cbn [first_b] in H. cbn [span_digits]. rewrite H. reflexivity.
 Qed.
 
-Theorem lex_lits_roundtrip ts : forall fuel,
-  ltoks_ok ts = true -> (String.length (toks_text ts) < fuel)%nat -> lex_lits fuel (toks_text ts) = Some ts.
+(* a literal run followed by any text: the run is read back token by token and lexing continues with what follows *)
+Theorem lex_lits_run ts rest : forall fuel,
+  ltoks_ok_in ts rest = true -> (String.length (toks_text ts) + String.length rest < fuel)%nat ->
+  lex_lits fuel (toks_text ts ++ rest) = option_map (app ts) (lex_lits (fuel - List.length ts) rest).
 Proof.
   induction ts as [|t r IH]; intros fuel Hok Hf.
-  - destruct fuel as [|f]; [inversion Hf|]. reflexivity.
-  - cbn [ltoks_ok] in Hok. apply andb_true_iff in Hok as [Ht Hr].
+  - cbn [toks_text append List.length app]. rewrite Nat.sub_0_r. destruct (lex_lits fuel rest); reflexivity.
+  - cbn [ltoks_ok_in] in Hok. apply andb_true_iff in Hok as [Ht Hr].
     destruct fuel as [|f]; [inversion Hf|].
-    cbn [toks_text] in Hf |- *. rewrite slen_app in Hf.
-    set (tail := toks_text r) in *.
-    assert (Htail : (0 < String.length (tok_text t))%nat -> lex_lits f tail = Some r) by (intros H2; apply IH; [exact Hr|lia]).
+    cbn [toks_text] in Hf |- *. rewrite slen_app in Hf. rewrite sapp_assoc.
+    set (tail := toks_text r ++ rest) in *.
+    assert (Htail : (0 < String.length (tok_text t))%nat ->
+                    lex_lits f tail = option_map (app r) (lex_lits (S f - List.length (t :: r)) rest)).
+    { intros H2. cbn [List.length Nat.sub]. apply IH; [exact Hr|lia]. }
+    assert (Hcons : forall o : option (list tok),
+              match option_map (app r) o with Some ts0 => Some (t :: ts0) | None => None end = option_map (app (t :: r)) o).
+    { intros [l|]; reflexivity. }
     destruct t as [v| |v|o v|v]; try discriminate Ht.
     + destruct v as [|a [|? ?]]; try discriminate Ht. cbn [ltok_ok] in Ht.
       apply andb_true_iff in Ht as [Ht Hbr]. apply andb_true_iff in Ht as [Ht Hop]. apply andb_true_iff in Ht as [H128 H92].
@@ -342,8 +351,8 @@ Proof.
       assert (G128 : (128 <=? b_of a)%N = false) by (apply N.leb_gt; apply N.ltb_lt; exact H128).
       cbn [tok_text append lex_lits]. rewrite G128, H92. specialize (Htail ltac:(simpl; lia)).
       destruct (b_of a =? 123)%N eqn:E123.
-      * cbn [negb orb] in Hbr. apply negb_true_iff in Hbr. rewrite (lex_repeat_no_digit tail Hbr), Htail. reflexivity.
-      * rewrite Hop, Htail. reflexivity.
+      * cbn [negb orb] in Hbr. apply negb_true_iff in Hbr. rewrite (lex_repeat_no_digit tail Hbr), Htail. apply Hcons.
+      * rewrite Hop, Htail. apply Hcons.
     + destruct v as [|bs [|a [|? ?]]]; try discriminate Ht. cbn [ltok_ok] in Ht.
       apply andb_true_iff in Ht as [Ht Hop]. apply andb_true_iff in Ht as [Ht Hpx].
       apply andb_true_iff in Ht as [Ebs H128]. apply N.eqb_eq in Ebs. apply negb_true_iff in Hpx.
@@ -352,8 +361,22 @@ Proof.
       cbn [lex_escape]. rewrite G128, Hpx. specialize (Htail ltac:(simpl; lia)).
       destruct (is_oct (b_of a)) eqn:Eoct.
       * apply andb_true_iff in Hop as [Hop Hnx]. apply op_eqb_eq' in Hop. apply negb_true_iff in Hnx. subst o.
-        destruct tail as [|a2 r2] eqn:Etl; [rewrite Htail; reflexivity|]. cbn [first_b] in Hnx. rewrite Hnx, Htail. reflexivity.
-      * apply op_eqb_eq' in Hop. subst o. rewrite Htail. reflexivity.
+        destruct tail as [|a2 r2] eqn:Etl; [rewrite Htail; apply Hcons|]. cbn [first_b] in Hnx. rewrite Hnx, Htail. apply Hcons.
+      * apply op_eqb_eq' in Hop. subst o. rewrite Htail. apply Hcons.
+Qed.
+
+(* the whole text is one run *)
+Theorem lex_lits_roundtrip ts : forall fuel,
+  ltoks_ok ts = true -> (String.length (toks_text ts) < fuel)%nat -> lex_lits fuel (toks_text ts) = Some ts.
+Proof.
+  intros fuel Hok Hf. pose proof (lex_lits_run ts "" fuel Hok) as H. rewrite sapp_nil_r in H. rewrite H by (simpl; lia).
+  destruct (fuel - List.length ts)%nat as [|f'] eqn:E.
+  - exfalso. assert (List.length ts <= String.length (toks_text ts))%nat; [|lia].
+    clear -Hok. unfold ltoks_ok in Hok. revert Hok. generalize "". induction ts as [|t r IH]; intros rest Hok; [simpl; lia|].
+    cbn [ltoks_ok_in] in Hok. apply andb_true_iff in Hok as [Ht Hr]. cbn [toks_text List.length]. rewrite slen_app.
+    specialize (IH rest Hr). assert (1 <= String.length (tok_text t))%nat; [|lia].
+    destruct t as [v| |v|o v|v]; try discriminate Ht; destruct v as [|? [|? ?]]; try discriminate Ht; simpl; lia.
+  - cbn [lex_lits option_map]. rewrite app_nil_r. reflexivity.
 Qed.
 
 (* ------------------------------------------------------------------ *)
@@ -400,4 +423,63 @@ Example text_guards_satisfiable :
   ltoks_ok [TChar "a"; TChar "{"; TChar "x"; TEsc OpEscapeOctal "\0"; TChar "9"; TEsc OpEscapeMeta "\."; TEsc OpEscapeChar "\d"] = true /\
   ctoks_ok [TChar "a"; TMinus; TChar "c"; TChar "["; TChar "x"; TPosix "[:alpha:]"; TEsc OpEscapeMeta "\]"; TEsc OpEscapeChar "\d"; TMinus] = true /\
   items_ok None [X OpCharRange "a-c" [X OpChar "a" []; X OpChar "c" []]; X OpChar "-" []; X OpChar "x" []; X OpChar "-" []] = true.
+Proof. repeat split; vm_compute; reflexivity. Qed.
+
+(* ------------------------------------------------------------------ *)
+(* 6. the guards, evaluated on a whole emitted tree (measured per rewrite by the harness):
+      every class node satisfies the hypotheses of class_print_parse, every literal atom of every concatenation
+      those of lex_lits_run with the text that follows it *)
+
+Definition class_guard (e : sx) : bool :=
+  match e with
+  | X o _ items =>
+      match items_toks items with
+      | Some toks =>
+          negb (match toks with [] => true | _ => false end) && items_ok None items && ctoks_ok toks &&
+          (op_eqb o OpNegCharClass || negb (first_b (toks_text toks) =? 94)%N)
+      | None => false
+      end
+  end.
+
+Definition lit_leaf (e : sx) : option tok :=
+  match leaf_tok e with
+  | Some TMinus => Some (TChar "-")
+  | Some (TPosix _) => None
+  | o => o
+  end.
+
+Fixpoint run_guard (args : list sx) (after : string) : bool :=
+  match args with
+  | [] => true
+  | a :: r =>
+      let rest := ptext r ++ after in
+      (match a with
+       | X OpRepeat _ [x; X OpString rv _] =>
+           match lit_leaf x with Some t => ltoks_ok_in [t] (rv ++ rest) | None => true end
+       | _ => match lit_leaf a with Some t => ltoks_ok_in [t] rest | None => true end
+       end) && run_guard r after
+  end.
+
+Fixpoint tree_text_guard (e : sx) (after : string) {struct e} : bool :=
+  match e with
+  | X OpCharClass _ _ | X OpNegCharClass _ _ => class_guard e
+  | X OpConcat _ args =>
+      run_guard args after &&
+      (fix go (l : list sx) : bool :=
+         match l with
+         | [] => true
+         | x :: r => tree_text_guard x (match sx_op x with OpConcat => "0" | _ => ")" end) && go r
+         end) args
+  | X _ _ args =>
+      (fix go (l : list sx) : bool :=
+         match l with [] => true | x :: r => tree_text_guard x ")" && go r end) args
+  end.
+
+Definition text_guards_ok (e : sx) : bool := tree_text_guard e "".
+
+Example text_guards_examples :
+  text_guards_ok t_unwrap_g_after = true /\                (* a{2} as a repeat node: fine *)
+  text_guards_ok (simp_ast t_unwrap_g) = false /\          (* a { 2 } as four characters *)
+  text_guards_ok (simp_ast t_oct) = false /\ text_guards_ok (simp_ast t_rng2) = false /\
+  text_guards_ok (simp_ast t_esc_rep) = false /\ text_guards_ok (simp_ast t_esc_posix) = false.
 Proof. repeat split; vm_compute; reflexivity. Qed.
